@@ -62,7 +62,8 @@ def gen_cases(tier, seed):
 def required(tier):
     return {"pos.decided": 1500, "pos.class.witness_vn_other_len": 1000, "pos.class.p2pk": 40, "neg.decided": 2500,
             "neg.class.unknown_b58_version": 250, "neg.class.key_65_with_02": 20, "neg.class.key_offcurve": 20, "neg.class.key_coord_plus_p": 20,
-            "neg.class.bad_checksum": 200, "neg.class.segwit_invalid": 200}
+            "neg.class.bad_checksum": 200, "neg.class.segwit_invalid": 200,
+            "neg.class.segwit_crafted_padding": 100, "neg.class.segwit_crafted_version_gt16": 100, "neg.class.key_offcurve_pseudo_root": 40}
 
 
 def exhaustive(tier, counts):
@@ -217,6 +218,15 @@ def run_case(kind, params, ctx):
                 pl = rng.choice([1, 41, 19, 33]) if ver else rng.choice([19, 21, 31, 33])
                 s = rb.encode_segwit(rb.NET_HRP[net], ver, rand_bytes(rng, pl))
             _negative(ctx, s, "segwit_invalid")
+            if i % 6 == 0:
+                # crafted variants with VALID checksums, shared with C06 (padding groups, version > 16, program lengths, hrp, case ...)
+                from .c06 import crafted_mutations
+                for cls, m_ in crafted_mutations(rng, rb.NET_HRP[net], ver, prog):
+                    if rb.decode_segwit(m_) is not None:
+                        pv, pp = rb.decode_segwit(m_)[-2:]
+                        _positive(ctx, m_, tmpl_witness(pv, bytes(pp)), "segwit_variant_valid")
+                    else:
+                        _negative(ctx, m_, "segwit_crafted_" + cls)
         return
     if kind == "neg_keys":
         for i in range(params["n"]):
@@ -239,6 +249,14 @@ def run_case(kind, params, ctx):
             muts.append(("key_coord_plus_p", b"\x02" + (sx + secp.P).to_bytes(32, "big")))
             for cls, d in muts:
                 _negative(ctx, d, cls)
+            if i % 4 == 0:
+                # the candidate list shared with the other public-key properties (common.sec1_candidates)
+                from .common import sec1_candidates
+                for cls, d in sec1_candidates(rng, n_random=6):
+                    if secp.sec1_decode(d) is not None:
+                        _positive(ctx, d, tmpl_p2pk(d), "p2pk")
+                    else:
+                        _negative(ctx, d, "key_" + cls)
         return
     if kind == "neg_arbitrary":
         for i in range(params["n"]):
